@@ -116,6 +116,12 @@ func instantiateQuantifiers(asserts []*Term) []*Term {
 								reg(Select(a.Args[0], a.Args[1].Args[1]), depth+1)
 								reg(Select(a.Args[0], a.Args[1].Args[2]), depth+1)
 							}
+							// a row read from an updated heap at a reference not known to differ from the updated one:
+							// it is the stored row or the row of the heap below
+							if len(a.Args) == 2 && a.Args[0].Op == "store" && !a.Args[0].hasB && !a.Args[1].hasB {
+								reg(a.Args[0].Args[2], depth+1)
+								reg(Select(a.Args[0].Args[0], a.Args[1]), depth+1)
+							}
 						}
 					}
 					reg(t.Args[0], 0)
